@@ -274,7 +274,7 @@ def tree_3(ctx, rep):
                'dump() prints %s(%s) but %s is def __init__(self, %s)%s' % (
                    c.name, ', '.join(pos + [k + '=' for k in kws]), init.qual, ', '.join(params),
                    '' if public else '; name not public in parso.python.tree'))
-    rep.minimum('TREE-3', 30)
+    rep.minimum('TREE-3', 24)
 
 
 # ---------------------------------------------------------------------------
